@@ -370,7 +370,7 @@ theorem path_param_request_over_client (uri : Bytes) (reqP clientP : List KV) :
 example : substParams (b "/u/:id") [(b "id", b "r")] [(b "id", b "c")] = b "/u/r" := by decide
 
 /-- **Path parameters arrive** — partial: outside the recorded region K2 (`unsafePathValue`: a
-    substituted value is empty, a dot segment or contains a byte that is not unreserved). For every
+    substituted value is a dot segment or contains a byte that is not unreserved; the EMPTY value is inside the theorem). For every
     template whose placeholder reading is unambiguous for the configured keys (`templateOK`) the
     sequential, longest-key-first `strings.ReplaceAll` of `replacePathParams` produces exactly the
     template with every `:name` replaced by the request-level value, else the client-level value,
@@ -387,6 +387,14 @@ example : templateOK (b "http://h/x/:idx/:id.json") [b "id", b "idx"] = true ∧
     unsafePathValue (b "http://h/x/:idx/:id.json") [(b "id", b "1")] [(b "idx", b "2"), (b "id", b "9")] = false ∧
     substParams (b "http://h/x/:idx/:id.json") [(b "id", b "1")] [(b "idx", b "2"), (b "id", b "9")] =
       b "http://h/x/2/1.json" := by decide
+
+/-- the empty string is a value like any other: a request that sets `ext` to "" hides the client's ".json"
+    (outside K2, inside `templateOK`) -/
+example : templateOK (b "http://h/api/v1/items:ext") [b "ext", b "ext"] = true ∧
+    unsafePathValue (b "http://h/api/v1/items:ext") [(b "ext", [])] [(b "ext", b ".json")] = false ∧
+    substParams (b "http://h/api/v1/items:ext") [(b "ext", [])] [(b "ext", b ".json")] = b "http://h/api/v1/items" ∧
+    expectedURI (b "http://h/api/v1/items:ext") [(b "ext", [])] [(b "ext", b ".json")] = b "http://h/api/v1/items" := by
+  decide
 
 /-- inside K2 the substitution itself goes wrong as well: a value that contains `:name` is substituted again -/
 theorem path_param_witness_K2_resubstituted :
